@@ -75,6 +75,7 @@ func tsConst(P *core.Program, name string) (constant.Value, bool) {
 }
 
 func checkC20(P *core.Program, R *core.Report) {
+	defer checkEscrowNamespaces(P, R)
 	R.Explanation = "Escrow safety as structure on every path: (1) every bank transfer whose source is an order escrow address (order.GetOrderAddress()) pays MustAccAddressFromBech32(OwnerAddress) of the same order record; " +
 		"(2) create: the escrow transfer of the order's amount/collateral from the owner and the stored pending order lie on the same success paths; cancel: the refund and RemovePending* lie on the same success paths; " +
 		"(3) execution: escrow release and RemovePending* are reached only under the trigger comparison of the frozen polarity table (stop-loss and limit-buy: market ≤ price; limit-sell: market ≥ price; perpetual limit-open: long market ≤ trigger, short market ≥ trigger — decided per acyclic path with the position discriminator, whose domain {LONG, SHORT} is enforced by the message's ValidateBasic, itself checked), with the market price taken for the order's own denoms / trading asset; " +
@@ -148,9 +149,9 @@ func checkC20(P *core.Program, R *core.Report) {
 		R.Add("C20-create-pair", cp.fn, "escrow transfer ↔ stored order", P.Pos(fn.Pos()), paired && sendOK,
 			"a pending order is stored exactly when its "+cp.amountField+" was moved from the owner into the order's escrow")
 	}
-	for _, cp := range []struct{ fn, remove string }{
-		{"x/tradeshield/keeper.msgServer.CancelSpotOrder", "x/tradeshield/keeper.Keeper.RemovePendingSpotOrder"},
-		{"x/tradeshield/keeper.msgServer.CancelPerpetualOrder", "x/tradeshield/keeper.Keeper.RemovePendingPerpetualOrder"},
+	for _, cp := range []struct{ fn, remove, amountField string }{
+		{"x/tradeshield/keeper.msgServer.CancelSpotOrder", "x/tradeshield/keeper.Keeper.RemovePendingSpotOrder", "OrderAmount"},
+		{"x/tradeshield/keeper.msgServer.CancelPerpetualOrder", "x/tradeshield/keeper.Keeper.RemovePendingPerpetualOrder", "Collateral"},
 	} {
 		fn := P.Fn(cp.fn)
 		if fn == nil {
@@ -193,6 +194,36 @@ func checkC20(P *core.Program, R *core.Report) {
 			}
 		}
 		R.Add("C20-cancel-pair", cp.fn, "refund ↔ RemovePending", P.Pos(fn.Pos()), ok, "cancelling removes the order and refunds the escrow (the refund may only be skipped for an empty escrow)")
+		// the amount refunded is the escrow itself: everything the escrow address holds, or the
+		// very coin the create handler escrowed (the order's own field, whole) — not a coin
+		// re-assembled from a denom and an amount looked up separately
+		if len(sends) == 1 {
+			cc := sends[0].(ssa.CallInstruction).Common()
+			coins := cc.Args[len(cc.Args)-1]
+			full := false
+			for _, o := range ff.Origins(coins) {
+				if o.Kind == "call" && strings.HasSuffix(o.Name, "GetAllBalances") && o.Path == "" {
+					full = true
+				}
+			}
+			dn, whole := coinDenomValues(ff, coins)
+			if !full && len(dn) == 0 && len(whole) > 0 {
+				full = true
+				for _, w := range whole {
+					okW := false
+					for _, o := range ff.Origins(w) {
+						if strings.HasSuffix(o.Path, "."+cp.amountField) || (o.Kind == "call" && strings.HasSuffix(o.Name, "GetAllBalances") && o.Path == "") {
+							okW = true
+						}
+					}
+					if !okW {
+						full = false
+					}
+				}
+			}
+			R.Add("C20-cancel-pair", cp.fn, "refund amount is the escrow", P.Pos(P.InstrPos(sends[0])), full,
+				"the coins refunded are the whole escrow balance or the order's own "+cp.amountField+" coin")
+		}
 	}
 	checkTriggers(P, R)
 	// (4) isolation
@@ -552,4 +583,74 @@ func isolatedCallPhi(P *core.Program, ff *core.FuncFacts, c ssa.CallInstruction)
 		return true, "fork is never written (dry run)"
 	}
 	return true, ""
+}
+
+// checkEscrowNamespaces (C20-escrow-namespace): spot and perpetual order ids come from two
+// independent counters that both start at 1, so their escrow addresses must be derived in
+// disjoint name spaces.  The address methods of the two order types reach (through the
+// derivation functions) sets of format-string constants that are non-empty and disjoint,
+// and each is applied to the order's own OrderId.  A copy-pasted derivation makes spot
+// order N and perpetual order N share one escrow: cancelling one sweeps the other's funds.
+func checkEscrowNamespaces(P *core.Program, R *core.Report) {
+	const rule = "C20-escrow-namespace"
+	consts := func(fn *ssa.Function) map[string]bool {
+		out := map[string]bool{}
+		seen := map[*ssa.Function]bool{}
+		var walk func(f *ssa.Function, d int)
+		walk = func(f *ssa.Function, d int) {
+			if f == nil || seen[f] || d > 3 || f.Blocks == nil {
+				return
+			}
+			seen[f] = true
+			for _, b := range f.Blocks {
+				for _, in := range b.Instrs {
+					for _, op := range in.Operands(nil) {
+						if op == nil || *op == nil {
+							continue
+						}
+						if k, ok := (*op).(*ssa.Const); ok && k.Value != nil && k.Value.Kind() == constant.String && constant.StringVal(k.Value) != "" {
+							out[constant.StringVal(k.Value)] = true
+						}
+					}
+					if c, ok := in.(ssa.CallInstruction); ok {
+						if sc := c.Common().StaticCallee(); sc != nil && strings.HasPrefix(P.Key(sc), "x/tradeshield/") {
+							walk(sc, d+1)
+						}
+					}
+				}
+			}
+		}
+		walk(fn, 0)
+		return out
+	}
+	spot := P.Fn("x/tradeshield/types.SpotOrder.GetOrderAddress")
+	perp := P.Fn("x/tradeshield/types.PerpetualOrder.GetOrderAddress")
+	if spot == nil || perp == nil {
+		R.Add(rule, "x/tradeshield/types", "GetOrderAddress methods", "-", false, "unresolved anchor")
+		return
+	}
+	cs, cp := consts(spot), consts(perp)
+	disjoint := len(cs) > 0 && len(cp) > 0
+	for k := range cs {
+		if cp[k] {
+			disjoint = false
+		}
+	}
+	ownID := func(fn *ssa.Function) bool {
+		ff := P.Facts(fn)
+		for _, c := range core.Calls(fn) {
+			if sc := c.Common().StaticCallee(); sc != nil && strings.HasPrefix(P.Key(sc), "x/tradeshield/") {
+				for _, a := range c.Common().Args {
+					for _, o := range ff.Origins(a) {
+						if (o.Kind == "param" || o.Kind == "local") && strings.HasSuffix(o.Path, ".OrderId") {
+							return true
+						}
+					}
+				}
+			}
+		}
+		return false
+	}
+	R.Add(rule, "x/tradeshield/types.SpotOrder.GetOrderAddress | PerpetualOrder.GetOrderAddress", "disjoint escrow name spaces", P.Pos(perp.Pos()), disjoint && ownID(spot) && ownID(perp),
+		fmt.Sprintf("spot derivation constants %v, perpetual derivation constants %v: must be non-empty and disjoint, each applied to the order's own id", keysOf(cs), keysOf(cp)))
 }
